@@ -118,3 +118,18 @@ Definition lcase_prop_ok (c : lcase) : bool :=
        (length (h_alone o) =? length (lc_entries c))%nat &&
        bool_eqb (h_match o) v && bool_eqb (h_inv o) (negb v) && bool_eqb (h_inv2 o) v && bool_eqb (h_perm o) v)
       (lc_obs c))).
+
+(* ---- end to end: the real binary started with --deny-domains, requests for target hosts ---- *)
+Record ucase := {
+  uc_entries : list (bool * rx);      (* the list given on the command line: exclude?, rule *)
+  uc_obs : list (str * list bool * bool)   (* bare target host name, Go's regexp verdict of every rule alone, request was denied *)
+}.
+Definition ucase_model_ok (c : ucase) : bool :=
+  forallb (fun o => let '(host, _, denied) := o in
+                    outcome_is (match_entries the_shape (uc_entries c) 0 host) 0 denied) (uc_obs c).
+Definition ucase_prop_ok (c : ucase) : bool :=
+  forallb (fun o => let '(_, alone_ans, denied) := o in
+                    (length alone_ans =? length (uc_entries c))%nat &&
+                    bool_eqb denied (ref_verdict (uc_entries c) alone_ans)) (uc_obs c).
+Definition ucase_unmodelled (c : ucase) : bool :=
+  match match_entries the_shape (uc_entries c) 0 [] with Unmodelled => true | _ => false end.
